@@ -108,10 +108,11 @@ def parseRtOpts (s : String) : RtOpts :=
   { strictDone := has 's', dynamic := has 'd', onDemand := has 'o', deleteFrees := has 'f',
     u8 := has 'u', unsafeIdx := has 'x', indirect := has 'i', zeroLen := has 'z' }
 
-def rtOp (c : RtCtx) (σ : CState) (op : String) : CState :=
+def rtOp (c : RtCtx) (σ0 : CState) (σ : CState) (op : String) : CState :=
   match splitOn op ':' with
   | ["start"] =>
-    let (σ', code) := c.start σ
+    -- the driver refills the struct with 0xAA before every `start`
+    let (σ', code) := c.start { σ0 with log := σ.log }
     { σ' with log := σ'.log.push s!"start {code} | {c.dump σ'}" }
   | ["feed", h] =>
     let chunk := unhex h
@@ -164,11 +165,8 @@ def cmdRt (args : List String) : String :=
         strs := Array.ofFn (n := M.outs.size) fun i =>
           let t := (M.outs.getD i default).ty
           { bytes := Array.replicate t.size (some 170), counter := 0, alloc := .inStruct } }
-      let σ := (splitOn ops ';').foldl (fun σ op => if op = "" then σ else rtOp c σ op) σ0
-      let out := " ## ".intercalate σ.log.toList
-      match σ.fault with
-      | some f => out ++ " ## fault " ++ f
-      | none => out
+      let σ := (splitOn ops ';').foldl (fun σ op => if op = "" then σ else rtOp c σ0 σ op) σ0
+      " ## ".intercalate σ.log.toList
     | .error e => s!"error parse {e}"
   | _ => "error bad-args"
 
